@@ -244,7 +244,8 @@ def step_kind(node, prefix_ok, local=None):
     """min(<x>._dev_resolution, <x>._exp_resolution) | <x>._dev_resolution | <x>._exp_resolution"""
     local = local or {}
     if isinstance(node, ast.Name) and node.id in local:
-        return step_kind(local[node.id], prefix_ok)
+        rest = {k: v for k, v in local.items() if k != node.id}      # follow local aliases, no cycles
+        return step_kind(local[node.id], prefix_ok, rest)
     if isinstance(node, ast.Attribute) and prefix_ok(node.value):
         if node.attr in ("_dev_resolution", "dev_resolution"):
             return "SDev"
@@ -252,7 +253,7 @@ def step_kind(node, prefix_ok, local=None):
             return "SExp"
     if isinstance(node, ast.Call) and isinstance(node.func, ast.Name) and node.func.id == "min" \
             and len(node.args) == 2 and not node.keywords:
-        ks = {step_kind(a, prefix_ok) for a in node.args}
+        ks = {step_kind(a, prefix_ok, local) for a in node.args}
         if ks == {"SDev", "SExp"}:
             return "SMin"
         if len(ks) == 1:
